@@ -560,6 +560,103 @@ theorem keys_partition_every_suite (P : Prims) (hP : FixedPrims P) (version : Na
 
 example : ((0xC02F, 0, 16, 4, false) : Nat × Nat × Nat × Nat × Bool) ∈ ZV.Generated.C26.suiteRows := by decide
 
+
+/-! ### the two suite tables (`cipherSuites`, `implementedCipherSuites`) and the lookup the handshakes go through -/
+
+/-- T1: who reads which table. Key derivation only ever sees rows obtained through `cipherSuiteByID`
+(`mutualCipherSuite`, `selectCipherSuite`, `aesgcmPreferred`), which ranges over `implementedCipherSuites`;
+`cipherSuites` is read by `makeClientHello` and the default suite list (id and flags only). -/
+theorem suite_table_uses_eq : ZV.Generated.C26.suiteTableUses = [
+    ("cipher_suites.go", "selectCipherSuite", "call:cipherSuiteByID"),
+    ("cipher_suites.go", "mutualCipherSuite", "call:cipherSuiteByID"),
+    ("cipher_suites.go", "cipherSuiteByID", "implementedCipherSuites"),
+    ("common.go", "initDefaultCipherSuites", "cipherSuites"),
+    ("common.go", "initDefaultCipherSuites", "cipherSuites"),
+    ("common.go", "aesgcmPreferred", "call:cipherSuiteByID"),
+    ("handshake_client.go", "marshal", "implementedCipherSuites"),
+    ("handshake_client.go", "makeClientHello", "cipherSuites"),
+    ("handshake_client.go", "loadSession", "call:mutualCipherSuite"),
+    ("handshake_client.go", "pickCipherSuite", "call:mutualCipherSuite")] := by decide
+
+/-- T1: how the two tables relate, exactly.
+(1) `cipherSuites` is, row for row and with the full flags word, the PREFIX of `implementedCipherSuites`; hence for
+every advertised id the first match `cipherSuiteByID` returns IS the advertised row.
+(2) `implementedCipherSuites` lists some ids a second time further down (rows that `cipherSuiteByID` can never return);
+any two rows with the same id, in either table, have identical (macLen, keyLen, ivLen) and identical SHA-384 flag — i.e.
+the same key-derivation shape — and their flags words differ at most in the bits
+suiteECSign (2), suiteDefaultOff (16), suiteECDSA (32), suiteNoDTLS (64) (mask 114, disjoint from suiteSHA384).
+So they do NOT agree on the full flags word (e.g. 0xC007: 19 in the first listing, 97 in the second), but they agree on
+everything key derivation reads. -/
+theorem suite_tables_agree :
+    ZV.Generated.C26.tableImplemented.take ZV.Generated.C26.tableAdvertised.length = ZV.Generated.C26.tableAdvertised
+    ∧ (∀ r ∈ ZV.Generated.C26.tableAdvertised, cipherSuiteByID ZV.Generated.C26.tableImplemented r.1 = some r)
+    ∧ (∀ r ∈ ZV.Generated.C26.tableAdvertised ++ ZV.Generated.C26.tableImplemented,
+       ∀ r' ∈ ZV.Generated.C26.tableAdvertised ++ ZV.Generated.C26.tableImplemented, r.1 = r'.1 →
+        rowKeyShape ZV.Generated.C26.suiteSHA384Bit r = rowKeyShape ZV.Generated.C26.suiteSHA384Bit r'
+        ∧ r.2.2.2.2 ||| 114 = r'.2.2.2.2 ||| 114)
+    ∧ 114 &&& ZV.Generated.C26.suiteSHA384Bit = 0 := by
+  have agree : ∀ (A B : List SuiteRow) (p : SuiteRow → SuiteRow → Prop) [∀ a b, Decidable (p a b)],
+      (A.all fun r => B.all fun r' => decide (p r r')) = true → ∀ r ∈ A, ∀ r' ∈ B, p r r' := by
+    intro A B p _ h r hr r' hr'
+    exact of_decide_eq_true (List.all_eq_true.mp (List.all_eq_true.mp h r hr) r' hr')
+  refine ⟨by decide, ?_, agree _ _ _ (by decide), by decide⟩
+  have h : (ZV.Generated.C26.tableAdvertised.all fun r =>
+      decide (cipherSuiteByID ZV.Generated.C26.tableImplemented r.1 = some r)) = true := by decide
+  intro r hr
+  exact of_decide_eq_true (List.all_eq_true.mp h r hr)
+
+/-- T1: the key-derivation view of the full-flags dump is the `suiteRows` table the theorems above speak about
+(with the tree's own `suiteSHA384` bit), and the advertised table has the RFC lengths as well -/
+theorem suite_tables_shape :
+    ZV.Generated.C26.tableImplemented.map (rowKeyShape ZV.Generated.C26.suiteSHA384Bit) = ZV.Generated.C26.suiteRows
+    ∧ (∀ r ∈ ZV.Generated.C26.tableAdvertised,
+        rfcSuiteLens r.1 = some (r.2.1, r.2.2.1, r.2.2.2.1)
+        ∧ rowSHA384 ZV.Generated.C26.suiteSHA384Bit r = rfcSHA384Suites.contains r.1) := by decide
+
+/-- `cipherSuiteByID` over ANY table returns a row of that table with the requested id -/
+theorem cipherSuiteByID_spec (table : List SuiteRow) (id : Nat) (r : SuiteRow)
+    (h : cipherSuiteByID table id = some r) : r ∈ table ∧ r.1 = id := by
+  unfold cipherSuiteByID at h
+  exact ⟨List.mem_of_find?_eq_some h, by simpa using List.find?_some h⟩
+
+theorem mutualCipherSuite_spec (table : List SuiteRow) (have_ : List Nat) (want : Nat) (r : SuiteRow)
+    (h : mutualCipherSuite table have_ want = some r) : want ∈ have_ ∧ r ∈ table ∧ r.1 = want := by
+  unfold mutualCipherSuite at h
+  by_cases hc : have_.contains want = true
+  · rw [if_pos hc] at h
+    exact ⟨by simpa using hc, cipherSuiteByID_spec table want r h⟩
+  · rw [if_neg hc] at h; cases h
+
+/-- Whatever suite the handshake obtains (`hs.suite = mutualCipherSuite(offered, chosen)` on the client,
+`cipherSuiteByID` in `selectCipherSuite` on the server) from the table the tree actually reads: `establishKeys` with
+that row yields keys of the suite's RFC lengths whose concatenation is the RFC key block, for every version and secret. -/
+theorem keys_partition_looked_up_suite (P : Prims) (hP : FixedPrims P) (version : Nat) (have_ : List Nat) (want : Nat)
+    (r : SuiteRow) (hr : mutualCipherSuite ZV.Generated.C26.tableImplemented have_ want = some r)
+    (ms cr sr : Bytes) (k : Keys)
+    (h : establishKeys P version (rowKeyShape ZV.Generated.C26.suiteSHA384Bit r) ms cr sr = .ok k) :
+    rfcSuiteLens want = some (k.clientMAC.length, k.clientKey.length, k.clientIV.length)
+    ∧ k.serverMAC.length = k.clientMAC.length ∧ k.serverKey.length = k.clientKey.length
+    ∧ k.serverIV.length = k.clientIV.length
+    ∧ RFC.PRF P version (rfcSHA384Suites.contains want) ms (ascii "key expansion") (sr ++ cr)
+        (2 * k.clientMAC.length + 2 * k.clientKey.length + 2 * k.clientIV.length)
+      = some (k.clientMAC ++ k.serverMAC ++ k.clientKey ++ k.serverKey ++ k.clientIV ++ k.serverIV) := by
+  obtain ⟨_, hmem, hid⟩ := mutualCipherSuite_spec _ _ _ _ hr
+  have hrow : rowKeyShape ZV.Generated.C26.suiteSHA384Bit r ∈ ZV.Generated.C26.suiteRows := by
+    rw [← suite_tables_shape.1]; exact List.mem_map_of_mem hmem
+  have hflag := (suite_lengths_eq_rfc.1 _ hrow).2
+  have hlens := (suite_lengths_eq_rfc.1 _ hrow).1
+  obtain ⟨a, b, c, d, e⟩ := keys_partition_every_suite P hP version _ hrow ms cr sr k h
+  have hid' : (rowKeyShape ZV.Generated.C26.suiteSHA384Bit r).1 = want := hid
+  rw [hid'] at a hflag hlens
+  refine ⟨a, b, c, d, ?_⟩
+  rw [a] at hlens
+  simp only [Option.some.injEq, Prod.mk.injEq] at hlens
+  rw [← hflag, hlens.1, hlens.2.1, hlens.2.2]
+  exact e
+
+example : mutualCipherSuite ZV.Generated.C26.tableImplemented [0x002F, 0xC02F] 0xC02F = some (0xC02F, 0, 16, 4, 5) := by
+  decide
+
 /-! ## TLS 1.3: label encoding is injective, and the schedule as the handshake wires it -/
 
 theorem uint8_ofNat_inj {a b : Nat} (ha : a < 256) (hb : b < 256) (h : UInt8.ofNat a = UInt8.ofNat b) : a = b := by
